@@ -189,7 +189,7 @@ func errorTag(m *msggen.Msg, captures bool) string {
 		t = "ce=none"
 	}
 	if captures {
-		if m.Spec.Enc == "deflate-zlib" {
+		if strings.HasPrefix(m.Spec.Enc, "deflate-zlib") {
 			t += "(zlib-wrapped)"
 		}
 		if m.Corrupt {
